@@ -29,7 +29,7 @@ CLAIMED = {
     'C09': dict(
         technique='Lean 4 proof (ring-buffer refinement by induction over op sequences; two-loop = dense BFGS operator; symmetry/secant/posdef) of translator-generated acceptance test and ring loops + bit-exact op-sequence correspondence + exact-rational dense-BFGS monitors',
         category='proof',
-        text='Props/C09.lean, all histories / memory sizes / dimensions: every interleaving of update, forced update, apply, reset, resize, scale_y refines the history model (run_refines, wraparound_keeps_most_recent); stored iff forced or update_valid (generated from lbfgs.tpp); apply = dense H(hist, gamma0) with the documented scaling; H symmetric, secant, positive definite under positive curvature. Partial: masked variant proved only to preserve the history; equality with the J-restricted operator is monitored.',
+        text='Props/C09.lean, all histories / memory sizes / dimensions: every interleaving of update, forced update, apply, reset, resize, scale_y refines the history model (run_refines, wraparound_keeps_most_recent); stored iff forced or update_valid (generated from lbfgs.tpp); apply = dense H(hist, gamma0) with the documented scaling after any interleaving including apply_masked (applyMasked_rhoOK, for the repaired code); H symmetric, secant, positive definite under positive curvature; the masked variant equals the dense operator of the J-restricted history with pairs invalid on J skipped (applyMasked_eq_restricted: CBFGS off, J duplicate-free and in range).',
         note='Lean kernel + Mathlib; gen/gen_c09.py (7 regions); hand model tied on explored op sequences (bit-exact); real-number semantics; std::pow uninterpreted.',
         design='§6 C09, §7-I, A.2'),
     'C17': dict(
@@ -56,6 +56,18 @@ CLAIMED = {
         text='Props/C01.lean: the projected-gradient step exhibits a normal-cone element; if the generated ApproxKKT criterion of the final iterate is <= tol then every coordinate of -grad L(x_hat, y_hat) is within tol of N_C(x_hat) (Certified), feasibility of x_hat; composed with C03 (write-back), C04 (y_hat / err_z closed forms), C06 (Converged iff eps <= tol), C07 (ALM termination test). The end-to-end statement is monitored on the real ALMSolver (PANOC/ZeroFPR x 4 directions, PANTR, FISTA): on Converged the three KKT residuals are recomputed in exact rationals from f, grad f, g, grad g*y, C, D alone and compared with compute_kkt_error.',
         note='Lean kernel + Mathlib; translators gen_c15/gen_c06; real-number semantics, binary64 rounding gap measured by the monitor (margin ~1e-9 x gradient scale); the composition relies on the separately tied models of C03/C04/C06/C07.',
         design='§6 C01'),
+    'C11': dict(
+        technique='Lean 4 proof over ordered fields with a lawful sqrt of the Steihaug CG loop / Newton-TR model built from translator-generated kernels + bit-exact correspondence on the real SteihaugCG::solve and NewtonTRDirection::apply + exact-rational monitors',
+        category='proof',
+        text='All scalar statements and branch tests of SteihaugCG::solve, all of get_boundaries_intersections and the scalar parts of NewtonTRDirection::apply are regenerated from the C++ on every run; hand model = loop + call order + J/K split, tied bit-exactly. Theorems for every symmetric linear B, radius > 0, g != 0, all dimensions/parameters: CG invariants, termination within max_iter+2 iterations, ||s||^2 <= radius^2 with equality on boundary exits, value = g.s + s.Bs/2, monotone model decrease incl. boundary exits, value <= model on the feasible steepest-descent ray (hence <= Cauchy point <= 0), interior => residual rule / zero / cap, negative curvature or over-long => boundary; Newton-TR: q_K = p_K, q_J = Steihaug step, returned value = combined-step model decrease. g = 0 (NaN result) run and documented; one open known finding (curvature test on underflowed d.Bd with zero tolerance).',
+        note='Lean kernel + Mathlib; translator gen/gen_c11.py; oracles hess_prod/copysign/round; real-number semantics (IEEE rounding/underflow only monitored); hand model tied on explored inputs only; finite_diff branch of NewtonTR not modelled.',
+        design='§6 C11'),
+    'C14': dict(
+        technique='Lean 4 proof (refinement of scatter / index-generation loops to a matrix denotation, all shapes / patterns / index bases) over converter kernels regenerated from sparsity-conversions.hpp + exact correspondence on all 49 instantiations + independent dense-rebuild monitors',
+        category='proof',
+        text='Props/C14.lean: for all nine SparsityConverter specialisations (model parameterised by translator-generated triangle tests, scatter targets, first_index offsets, loop conditions, nnz formulas, result flags, feature macro): a successful conversion denotes the same matrix (convert_preserves), every dense cell incl. mirrored ones is filled, requested first_index / SortedRows / index type honoured and order tags stay truthful, non-square-symmetric and wrong-triangle inputs are rejected with invalid_argument by conversions to dense, dense-lower sources and (in this build) COO->CSC / CSC sorting are rejected, sparse->sparse never changes the denotation. Partial: inputs with undefined behaviour in C++ (out-of-range index into dense, malformed outer pointers), duplicate entries and the C++23 sorting paths compiled out by g++ 12 are outside the theorems.',
+        note='Lean kernel + Mathlib tactics; gen/gen_c14.py (~50 generated definitions, 9 pinned loop skeletons); hand loop models tied on explored inputs only; Eigen column-major / resize / copy semantics and value-preserving index casts assumed.',
+        design='§6 C14, §10'),
 }
 
 NOT_YET = {
